@@ -24,7 +24,8 @@ Inductive err :=
 | EEmptyFrac       (* EmptyFractionalPart *)
 | ETooManyPlaces   (* MoreThanEighteenDecimalPlaces / MoreThanThirtySixDecimalPlaces *)
 | ETwoPoints       (* MoreThanOneDecimalPoint *)
-| EInvalidLength.
+| EInvalidLength
+| EFuel.           (* model only: recursion fuel exhausted (excluded by theorems) *)
 
 Inductive res (A : Type) :=
 | Ok (a : A)
@@ -54,7 +55,7 @@ Definition err_eqb (a b : err) : bool :=
   | ENone, ENone | EOverflow, EOverflow | ENegToUnsigned, ENegToUnsigned
   | EInvalidDigit, EInvalidDigit | EEmpty, EEmpty | EEmptyInt, EEmptyInt
   | EEmptyFrac, EEmptyFrac | ETooManyPlaces, ETooManyPlaces | ETwoPoints, ETwoPoints
-  | EInvalidLength, EInvalidLength => true
+  | EInvalidLength, EInvalidLength | EFuel, EFuel => true
   | _, _ => false
   end.
 Definition resZ_eqb (a b : res Z) : bool :=
@@ -201,3 +202,16 @@ Definition iroot (n x : Z) : Z :=
 Definition FloorRoot (n x r : Z) : Prop := 0 <= r /\ r ^ n <= x < (r + 1) ^ n.
 (* root truncated toward zero, for odd roots of negative numbers too *)
 Definition troot (n x : Z) : Z := if x <? 0 then - iroot n (- x) else iroot n x.
+
+(* Checking instead of searching: `root_hint h n y` returns the hint h when h passes the defining test
+   of the truncated n-th root of y, and computes the root otherwise; it always equals `troot n y`
+   (Lib/DecCoreFacts.root_hint_eq).  Correspondence evaluation passes the implementation's output as
+   the hint, which replaces ~60 big exponentiations by 2. *)
+Definition is_troot (n y r : Z) : bool :=
+  (Z.abs r ^ n <=? Z.abs y) && (Z.abs y <? (Z.abs r + 1) ^ n) &&
+  (if y <? 0 then r <=? 0 else 0 <=? r).
+Definition root_hint (h : option Z) (n y : Z) : Z :=
+  match h with
+  | Some r => if is_troot n y r then r else troot n y
+  | None => troot n y
+  end.
